@@ -12,6 +12,13 @@ namespace BitSerializer::Detail
 	CBinaryStreamReader::CBinaryStreamReader(std::istream& inputStream)
 		: mStream(inputStream)
 	{
+		// The data may start anywhere in the stream (after a header or a previous document): positions are counted from here
+		if (mStream.good())
+		{
+			if (const auto origin = mStream.tellg(); origin != std::istream::pos_type(-1)) {
+				mStreamOrigin = origin;
+			}
+		}
 		ReadNextChunk();
 	}
 
@@ -49,7 +56,7 @@ namespace BitSerializer::Detail
 			mStream.clear();
 		}
 
-		if (pos == mStreamPos || !mStream.seekg(static_cast<std::streamoff>(pos)).fail())
+		if (pos == mStreamPos || !mStream.seekg(mStreamOrigin + static_cast<std::streamoff>(pos)).fail())
 		{
 			mStreamPos = pos;
 			// Invalidate cache
